@@ -17,8 +17,9 @@ class PreludeMixin:
                 'float', 'bool', 'isinstance', 'all', 'any', 'zip', 'enumerate', 'reversed', 'sum', 'abs',
                 'getattr', 'pow', 'iter', 'next', 'type', 'repr', 'print', 'frozenset', 'hasattr'}
     SPEC_BUILTINS = {'vec_le', 'vec_ge', 'vec_lt', 'vec_eq', 'vec_zero', 'dom', 'is_none', 'to_real', 'length',
-                     'keys_subset', 'str_to_int', 'alive', 'in_prefix', 'name_of', 'str_of', 'is_digits', 'select', 'strlen', 'cls_is', 'distinct_list'}
+                     'keys_subset', 'str_to_int', 'alive', 'in_prefix', 'name_of', 'str_of', 'dict_put', 'dict_del', 'set_put', 'set_del', 'counter_inc', 'is_digits', 'select', 'strlen', 'cls_is', 'distinct_list'}
     LIB_CONSTS = {'sys.maxsize': 9223372036854775807, 'np.inf': INF, 'numpy.inf': INF, 'math.inf': INF}
+    LIB_MODULES_ALIAS = {}
     LIB_MODULES = {'six.moves', 'os.path', 'six.moves.urllib', 'np.random'}
 
     # ------------------------------------------------------------------ sequences
@@ -581,11 +582,15 @@ class PreludeMixin:
             return self.record_method(st, fr, fv.selfv, q.split('.', 1)[1], args, kwargs)
         if q.startswith('spec.'):
             return [(st, self.spec_builtin(st, fr, q[5:], args))]
+        if q.startswith('fold.'):
+            return [(st, self.fold_apply(st, q[5:], args[0], list(args[1:])))]
         if q.startswith('ufunc.'):
             f, ks, rk = self.reg.ufuncs[q[6:]]
             zs = [self.coerce_to(st, a, k).z for a, k in zip(args, ks)]
             return [(st, SVal(rk, [f(*zs)]))]
         name = q.split('.', 1)[1] if q.startswith('builtins.') else q
+        if name.startswith('numpy.'):
+            name = 'np.' + name[6:]
         h = getattr(self, 'b_' + name.replace('.', '_'), None)
         if h is None:
             dep = self.reg.contracts.get('lib:' + name)
@@ -843,6 +848,7 @@ class PreludeMixin:
         return self.slice(st, fr, self.materialize(st, fr, v), None, None, -1)
 
     def b_zip(self, st, fr, args, kw):
+        args = [self.unwrap_opt(st, fr, a) for a in args]
         if all(isinstance(a, TupleVal) for a in args):
             return TupleVal([TupleVal(list(r)) for r in zip(*[a.items for a in args])])
         return ('zip', list(args))
@@ -962,6 +968,22 @@ class PreludeMixin:
             return SI(z3.StrToInt(lift(args[0], KStr).z))
         if name == 'is_digits':
             return SB(self.is_digits(lift(args[0], KStr).z))
+        if name == 'dict_put':
+            d, k, v = args
+            new = ops.dict_set(d, k, self.coerce_to(st, v, d.kind.val))
+            self.fold_update(st, fr, d, new, k, self.coerce_to(st, v, d.kind.val))
+            return new
+        if name == 'dict_del':
+            d, k = args
+            new = ops.dict_del(d, k)
+            self.fold_update(st, fr, d, new, k, None)
+            return new
+        if name == 'set_put':
+            return ops.set_add(args[0], args[1])
+        if name == 'set_del':
+            return ops.set_discard(args[0], args[1])
+        if name == 'counter_inc':
+            return ops.counter_add(args[0], args[1], lift(args[2], KInt).z)
         if name == 'in_prefix':
             lst, n, item = args
             return SB(self.list_member(lst, lift(n, KInt).z, self.coerce_to(st, item, lst.kind.elem)))
